@@ -87,3 +87,8 @@ CORPUS += [
         "            momentum = self._hamiltonian.sample_momentum(self.mass_matrix)\n            if getattr(self, '_previous_momentum', None) is not None:\n                momentum = 0.5 * self._previous_momentum + math.sqrt(0.75) * momentum\n            try:\n",
         mode='text', benign=True),
 ]
+CORPUS += [
+    Mut('c16-first-half-kick-in-place', 'torchtree/inference/hmc/integrator.py', '', "        momentum = momentum - self.step_size / 2.0 * dU\n", "        momentum -= self.step_size / 2.0 * dU\n", mode='text',
+        expect=[('C16.P', 'LeapfrogIntegrator.__call__::momentum-promoted-before-in-place-kicks')]),
+    Mut('c16-benign-every-kick-out-of-place', 'torchtree/inference/hmc/integrator.py', '', "            momentum -= self.step_size * dU\n", "            momentum = momentum - self.step_size * dU\n", mode='text', benign=True),
+]
